@@ -61,7 +61,7 @@ def run(ctx):
             return None
 
     rule = GateRule()
-    outs, it = run_function(m, fi, rule, POOL)
+    outs, it = run_function(m, fi, rule, POOL, inline=None)
     ctx.states += it.budget.steps
     ctx.sites(R1, rule.takes, 1, "queue take in _get_conn")
     n = 0
@@ -157,7 +157,21 @@ def run(ctx):
     for f, c in feeders:
         ok = f.cls is not None and m.issub(f.clsq, POOL) and f.name in ("__init__", "_put_conn")
         if f.name == "__init__":
-            ok = ok and c.args and isinstance(c.args[0], ast.Constant) and c.args[0].value is None
+            a0 = c.args[0] if c.args else None
+            if isinstance(a0, ast.Name):
+                # a local that only ever holds None (`placeholder = None`)
+                vals = [n_.value for n_ in astq.walk_fn(f.node) if isinstance(n_, (ast.Assign, ast.AnnAssign)) and n_.value is not None
+                        and any(isinstance(t_, ast.Name) and t_.id == a0.id for t_ in (n_.targets if isinstance(n_, ast.Assign) else [n_.target]))]
+                def nones(e_):
+                    """an iterable display that can only yield None: [None] * n, (None,) * n, [None, None]"""
+                    if isinstance(e_, ast.BinOp) and isinstance(e_.op, ast.Mult):
+                        return nones(e_.left) or nones(e_.right)
+                    return isinstance(e_, (ast.List, ast.Tuple)) and bool(e_.elts) and all(isinstance(x_, ast.Constant) and x_.value is None for x_ in e_.elts)
+                loops = [n_ for n_ in astq.walk_fn(f.node) if isinstance(n_, ast.For) and isinstance(n_.target, ast.Name) and n_.target.id == a0.id]
+                only_none = all(isinstance(v_, ast.Constant) and v_.value is None for v_ in vals) and all(nones(l_.iter) for l_ in loops)
+                ok = ok and bool(vals or loops) and only_none
+            else:
+                ok = ok and isinstance(a0, ast.Constant) and a0.value is None
         ctx.ob(R4, f.qual, f"`{astq.text(c)}`", ok, "" if ok else "a second door into the queue bypasses the clean-or-closed discipline", node=c)
     callers = [(f, c) for f, c in astq.func_callers(m, "_put_conn") if "emscripten" not in f.module]
     ctx.sites(R4, len(callers), 2, "_put_conn call sites")
@@ -199,29 +213,27 @@ def run(ctx):
     # ------------------------------------------------------------------ R5 protocol-state errors take the discard path
     R5 = ctx.rule("C03-R5", "http.client's protocol-state errors (ResponseNotReady, CannotSendRequest, BadStatusLine, RemoteDisconnected, IncompleteRead, ...) are subclasses of a root urlopen's discard handler catches", "E1 lattice")
     fi = m.method(POOL, "urlopen")
-    discard = None
-    for node in astq.walk_fn(fi.node):
-        if isinstance(node, ast.Try) and any(astq.call_text(c) == "self._make_request" for s in node.body for c in astq.calls(s)):
-            discard = node
-    if discard is None:
-        raise AnalysisError("try around _make_request not found in urlopen")
-    caught = []
-    for h in discard.handlers:
-        for e in (h.type.elts if isinstance(h.type, ast.Tuple) else [h.type]):
-            q = m.resolve_name(fi.module, e)
-            if q:
-                caught.append(m.norm(q))
+    # (i) lattice, read from the stdlib source: each protocol-state error is an HTTPException (or an OSError)
+    ROOTS5 = ("http.client.HTTPException", "builtins.OSError")
     for name in ("ResponseNotReady", "CannotSendRequest", "CannotSendHeader", "BadStatusLine", "RemoteDisconnected", "IncompleteRead", "LineTooLong", "ImproperConnectionState"):
         q = f"http.client.{name}"
-        ok = any(m.issub(q, c) for c in caught)
-        ctx.ob(R5, fi.qual, f"{name} is caught by the discard handler", ok, "" if ok else "a connection left in a broken protocol state would be returned to the pool as clean")
-    # the discard handler marks the exit unclean (so that the finally closes the connection)
-    for h in discard.handlers:
-        names = astq.handler_type_names(h)
-        if "EmptyPoolError" in names:
+        ok = any(m.issub(q, c) for c in ROOTS5)
+        ctx.ob(R5, "http.client", f"{name} is an HTTPException / OSError", ok, "" if ok else "not under a root the discard handler is checked for")
+    # (ii) those roots, raised by the request step, never leave urlopen raw and reach the retry policy: decided by interpreting
+    # urlopen with the request step raising the root (whatever the spelling of the handler's class list); (iii) that such an
+    # exit closes the connection before the slot goes back is the shared lease rule C01-R1d above
+    from .c01_more import urlopen_translation
+    ufi, table = urlopen_translation(ctx)
+    seen5 = 0
+    for root, escaped, errs in table:
+        if root not in ROOTS5:
             continue
-        sets_false = any(isinstance(s, ast.Assign) and isinstance(s.value, ast.Constant) and s.value.value is False for s in h.body)
-        ctx.ob(R5, fi.qual, f"handler `except {', '.join(names)[:60]}` marks the exit unclean", sets_false, node=h)
+        seen5 += 1
+        short = root.rsplit(".", 1)[-1]
+        ok = not escaped and bool(errs)
+        ctx.ob(R5, ufi.qual, f"{short} from the request step is caught by the discard handler", ok,
+               "" if ok else "a connection left in a broken protocol state would be returned to the pool as clean", witness=escaped[0].st.witness() if escaped else None, node=ufi.node)
+    ctx.sites(R5, seen5, 2, "protocol-state roots interpreted through urlopen")
 
     # ------------------------------------------------------------------ R6 body-less responses have length 0
     R6 = ctx.rule("C03-R6", "responses that carry no body (HEAD, 1xx, 204, 304) get length 0, so nothing on the connection is mistaken for their body", "E5 on _init_length")
